@@ -57,7 +57,7 @@ def units(tier, variant):
         ws = list(LZ.words(A, 1, 3))
     else:
         ws = list(LZ.words(A, 1, 3)) + list(LZ.words(A[:6], 4, 4))
-    return [dict(word=list(w), variant=variant) for w in ws]
+    return [dict(word=list(w), variant=variant) for w in ws] + [dict(kind='polarizing-coating', word=[0, 1], variant=variant)]
 
 
 def expected_intensity(rows, rec, w):
@@ -127,8 +127,60 @@ def check_record(part, o, rows, w, site, cond_extra, det):
     return got, exp, judged
 
 
+def run_polarizing(part, unit):
+    """A Fresnel-coated singlet with an aperture, polarization state set: the intensity of the traced rays (rays.i) is what the
+    image-surface record and the analyses report, and trace_generic agrees with trace for the same rays."""
+    from optiland.rays import PolarizationState
+    from optiland.analysis import SpotDiagram
+    from optiland import distribution as DD
+    p = V(unit['variant'])
+    g = ['ideal', p['n1'], 0.0]
+    surfs = [S('sphere', R=p['R'], mat=g, t=5.0, stop=True, coating='fresnel', aperture=[0.42 * p['epd']]),
+             S('sphere', R=-p['R'], mat='air', t=40.0, coating='fresnel')]
+    sp = LZ.spec(surfs, obj=LZ.INF, ap=('EPD', p['epd']), ftype='angle', fields=(0.0, 7.0, 10.0), waves=((0.5876, True),))
+    w = 0.5876
+    for sname, st in (('unpolarized', PolarizationState(is_polarized=False)),
+                      ('linear', PolarizationState(is_polarized=True, Ex=1.0, Ey=0.0, phase_x=0.0, phase_y=0.0))):
+        o = LZ.build(sp)
+        o.set_polarization(st)
+        part.states += 1
+        det = dict(lens='fresnel-coated singlet with aperture', state=sname, variant=unit['variant'])
+        d = DD.create_distribution('hexapolar')
+        d.generate_points(3)
+        for (hx, hy) in ((0.0, 0.0), (0.0, 1.0)):
+            rays = o.trace(hx, hy, w, 3, 'hexapolar')
+            ri = np.asarray(rays.i, float).copy()
+            rec = np.asarray(o.surface_group.intensity[-1], float).copy()
+            part.transitions += 1
+            part.evals += 1
+            if np.any(np.isfinite(ri)) and not (0.5 < np.nanmax(ri) < 1.0 - 1e-3):
+                part.count('polarizing-coating-without-effect')
+            if rec.shape != ri.shape or not np.allclose(np.nan_to_num(rec, nan=-1), np.nan_to_num(ri, nan=-1), rtol=0, atol=1e-12):
+                part.violation(PID, 'image-surface-record-is-the-traced-intensity', 'Optic.trace', f'polarizing-coating,state={sname}', dict(det, field=[hx, hy]),
+                               observed=rec[:5], expected=ri[:5], tol=1e-12)
+            rg = np.asarray(o.trace_generic(np.full(len(d.x), hx), np.full(len(d.x), hy), np.asarray(d.x, float).copy(), np.asarray(d.y, float).copy(), w).i, float)
+            part.transitions += 1
+            if rg.shape != ri.shape or not np.allclose(np.nan_to_num(rg, nan=-1), np.nan_to_num(ri, nan=-1), rtol=0, atol=1e-12):
+                part.violation(PID, 'trace_generic-intensity-equals-trace-intensity', 'Optic.trace_generic', f'polarizing-coating,state={sname}', dict(det, field=[hx, hy]),
+                               observed=rg[:5], expected=ri[:5], tol=1e-12)
+            o.trace(hx, hy, w, 3, 'hexapolar')
+        sd = SpotDiagram(o, fields='all', wavelengths=[w], num_rings=3, distribution='hexapolar')
+        part.transitions += 1
+        for fi, (hx, hy) in enumerate(o.fields.get_field_coords()):
+            ri = np.asarray(o.trace(hx, hy, w, 3, 'hexapolar').i, float)
+            arr = np.asarray(sd.data[fi][0][2], float)
+            if arr.shape != ri.shape or not np.allclose(np.nan_to_num(arr, nan=-1), np.nan_to_num(ri, nan=-1), rtol=0, atol=1e-12):
+                part.violation(PID, 'analysis-intensity-is-traced-intensity', 'SpotDiagram', f'polarizing-coating,state={sname}', dict(det, field=fi),
+                               observed=arr[:5], expected=ri[:5], tol=1e-12)
+        part.outcome('polarizing', sname, ri[:4])
+    part.sample(dict(kind='polarizing-coating'))
+
+
 def run_unit(unit):
     part = Part(unit)
+    if unit.get('kind') == 'polarizing-coating':
+        run_polarizing(part, unit)
+        return part
     v = unit['variant']
     p = V(v)
     A = alphabet(v)
